@@ -706,7 +706,8 @@ def check_side_doors(repo, rep):
            loc=sysm.loc(gp.node))
     lexm = repo.module('yaql.language.lexer')
     kw = lexm.func('Lexer.t_KEYWORD_STRING')
-    doc = ast.get_docstring(kw.node, clean=False) or ''
+    from sa import grammar as _g
+    doc = _g.effective_token_regex(kw.name)
     ok = False
     try:
         import re._parser as sre
